@@ -115,6 +115,8 @@ pub fn chk_str0(v: &String) -> bool { unsafe { G.t.chk[0][v.len().min(NPOS - 1)]
 pub struct Ctx { pub token: u32 }
 pub fn a_ctx(rest: &str, ctx: &mut Ctx) -> Result<(u16, usize), &'static str> { unsafe { if ctx.token == 4242 { G.ctx_seen += 1; } } operand(0, rest) }
 pub fn b_ctx(rest: &str, ctx: &mut Ctx) -> Result<(u16, usize), &'static str> { unsafe { if ctx.token == 4242 { G.ctx_seen += 1; } } operand(1, rest) }
+pub fn c_ctx(rest: &str, ctx: &mut Ctx) -> Result<(u16, usize), &'static str> { unsafe { if ctx.token == 4242 { G.ctx_seen += 1; } } operand(2, rest) }
+pub fn d_ctx(rest: &str, ctx: &mut Ctx) -> Result<(u16, usize), &'static str> { unsafe { if ctx.token == 4242 { G.ctx_seen += 1; } } operand(3, rest) }
 
 /// verdict of check i for a value identified by `key` (a tag: the first match inside the value)
 pub fn check(i: usize, key: u16) -> bool {
